@@ -28,17 +28,6 @@ func verifC14Keys() []uint32 {
 	return ks
 }
 
-func verifBuildRing(desc *Desc, rf int, zoneAware bool) *Ring {
-	r := &Ring{
-		cfg:                  Config{HeartbeatTimeout: time.Hour, ZoneAwarenessEnabled: zoneAware, SubringCacheDisabled: true, ReplicationFactor: rf},
-		strategy:             NewDefaultReplicationStrategy(),
-		trackedRingZones:     map[string]struct{}{},
-		shuffledSubringCache: map[subringCacheKey]*Ring{},
-	}
-	r.setRingStateFromDesc(desc, false, true, true)
-	return r
-}
-
 // owners[z][t] = instance index (0-based) owning alphabet token t in zone z, or -1.
 func verifC14Desc(owners [][]int, ninst int) *Desc {
 	d := NewDesc()
